@@ -105,9 +105,9 @@ pub fn plan_for(prop: &str, tier: Tier, seed: u64, verif_dir: &str) -> Option<Pl
 			property: "C06".into(),
 			tier,
 			seed,
-			jobs: vec![job("lnsim", "justice", n(1500, 15000))],
+			jobs: vec![job("lnsim", "justice", n(1500, 15000)), job("lnsim", "justicesweep", n(24, 300))],
 			level: "exploration".into(),
-			rule: "profile `justice`: 3 real nodes build a seeded off-chain history (3-16 payments in quick, up to 60 in thorough: direct and forwarded, dust and non-dust HTLCs in both directions, claims, fails, fee updates, disconnects, async monitor persistence, occasional crash/restart); after every action each node's fully signed holder commitment and (non-anchor channels) its signed HTLC transactions are archived through the test-only ChannelMonitor::unsafe_get_latest_holder_commitment_txn. In two thirds of the runs after quiescence, in one third in the middle of the traffic, one node turns cheater: a seeded revoked commitment from its archive (any age) is handed to the miner, a seeded subset of its HTLC-success/timeout transactions in the same block or later, and the victim learns 0-3 blocks late. The chain then runs until every monitor has drained, under a seeded plan of confirmation delays (blocks that leave the mempool alone, forcing fee bumps), fee-estimator moves (also collapsing in the middle of a stall), shallow reorganisations (depth 1-5) and reloads of any node's monitors from disk. Oracles: C06/C07-1 every transaction the victim broadcasts is consensus-valid and final (libbitcoinconsensus against the UTXO model); C06-2 walking the spend tree of the revoked commitment, every non-anchor output (and every output of the cheater's confirmed second-stage transactions) ends in the victim's scripts, spent before the cheater's to_self_delay expired; C06/C07-5 re-issued claims never lower their fee; C06/C07-4 claimable balances drain and SpendableOutputs are swept with the node's keys; wealth lower bound for the victim. One evaluation = one seeded run (config, schedule and faults all drawn from the run seed; replay executes the recorded action trace). non-trivial = a revoked commitment was confirmed; distinct = distinct FNV hash of the executed (action kind, actor) sequence.".into(),
+			rule: "profile `justice`: 3 real nodes build a seeded off-chain history (3-16 payments in quick, up to 60 in thorough: direct and forwarded, dust and non-dust HTLCs in both directions, claims, fails, fee updates, disconnects, async monitor persistence, occasional crash/restart); after every action each node's fully signed holder commitment and (non-anchor channels) its signed HTLC transactions are archived through the test-only ChannelMonitor::unsafe_get_latest_holder_commitment_txn. In two thirds of the runs after quiescence, in one third in the middle of the traffic, one node turns cheater: a seeded revoked commitment from its archive (any age) is handed to the miner, a seeded subset of its HTLC-success/timeout transactions in the same block or later, and the victim learns 0-3 blocks late. The chain then runs until every monitor has drained, under a seeded plan of confirmation delays (blocks that leave the mempool alone, forcing fee bumps), fee-estimator moves (also collapsing in the middle of a stall), shallow reorganisations (depth 1-5) and reloads of any node's monitors from disk. Oracles: C06/C07-1 every transaction the victim broadcasts is consensus-valid and final (libbitcoinconsensus against the UTXO model); C06-2 walking the spend tree of the revoked commitment, every non-anchor output (and every output of the cheater's confirmed second-stage transactions) ends in the victim's scripts, spent before the cheater's to_self_delay expired; C06/C07-5 re-issued claims never lower their fee; C06/C07-4 claimable balances drain and SpendableOutputs are swept with the node's keys; wealth lower bound for the victim. Job `justicesweep` enumerates the revoked-state index: one seeded off-chain history is built and settled, then replayed once per (channel, cheating side, revoked commitment of that side the other can punish) - every such commitment of the history in the thorough tier (cap 400), a seeded subset of 16 per history in the quick tier - each with a seeded subset of the HTLC transactions and the same liquidation plan, all oracles armed (counter `revoked_states_explored`; probe `every_revoked_state_of_the_history_confirmed`). One evaluation = one seeded run (config, schedule and faults all drawn from the run seed; replay executes the recorded action trace). non-trivial = a revoked commitment was confirmed; distinct = distinct FNV hash of the executed (action kind, actor) sequence.".into(),
 			assumptions: t_assumptions.clone(),
 			probes: vec![
 				"revoked_state_at_least_4_old".into(),
